@@ -26,6 +26,7 @@ RULE = ("pairs and triples of corpus scripts (all verbs and transfer kinds) on d
 RULE += ("  " + "Also: the same transfer kind in several sessions with a suspending back end; aioftp's own client in 2-3 sessions of one process; PathIO / AsyncPathIO worlds; an account limited to two connections next to sessions that mistype its password.")
 RULE += ("  " + 'Also (round 6): accounts with differing permissions on ONE base directory (same real paths), every script read-only or refused for its account, started in either order.')
 RULE += ("  " + 'Also: a session retrying its login next to real logins of an account limited to two connections; accounts with differing permissions using the same virtual paths.')
+RULE += ("  " + 'Also (round 7): prefixes whose names are textual prefixes of each other, one session dwelling in its directory while the other removes / renames its own; every client operation in all sessions at the same moment (deterministic plans).')
 ASSUMPTIONS = ["MemoryPathIO back end shared by all sessions of the server (as in production: one state per server)",
                "pinned clock for file times"]
 REQUIRED_MONITORS = ["transcript_vs_solo", "tree_vs_solo", "backend_prefix", "clients_vs_solo"]
